@@ -7,7 +7,7 @@ from bounded.common import outcome
 RULE = ("configuration grid (k 1..4 x run None/1..k x gc None/6 ranges incl. degenerate and asymmetric x 5 motif sets, "
         "constructor-rejected ones skipped) x strings: all over ACGT of length 0..5 (quick) / 0..7 (thorough) plus strings with a "
         "foreign character; one case = (configuration, string): whole-sequence verdict = filter_spec, last-window verdict = "
-        "verdict of s[-k:], window conjunction (decidable cfg, len >= k), reverse-complement invariance; "
+        "verdict of s[-k:], window conjunction (decidable cfg, len >= k), reverse-complement invariance (also for 6 motif sets outside A/C/G/T, k 1..3); "
         "non-trivial = len >= k and at least one rule configured")
 EXHAUSTIVE = {"quick": False, "thorough": False}
 CHUNK = 4
@@ -24,7 +24,14 @@ def configs():
                     yield (k, run, gc, mot)
 
 
+# motif sets outside the A/C/G/T alphabet: a lower-case letter is not matched itself, but the upper-casing of its 'reverse complement' is (known finding D9)
+ODD_MOTIFS = [["a"], ["ac"], ["aC", "G"], ["N"], ["AN"], ["t", "CG"]]
+
+
 def cases(tier, rng):
+    for k in (1, 2, 3):
+        for mot in ODD_MOTIFS:
+            yield {"cfg": (k, None, None, mot), "maxlen": 4, "nt": True}
     cfgs = list(configs())
     if tier == "quick":
         cfgs = rng.sample(cfgs, 90)
@@ -70,7 +77,9 @@ def check(case):
                 fails.append(("lemma:window-conjunction", f"cfg={case['cfg']} s={s!r}: whole {whole} but windows {conj}"))
         rc = S.revcomp(s)
         if bool(f.valid(rc, False)) != whole:
-            fails.append(("lemma:revcomp", f"cfg={case['cfg']} s={s!r}: verdict {whole}, reverse complement differs"))
+            lower = mot is not None and any(c in "acgt" for m_ in mot for c in m_)
+            fails.append(("lemma:revcomp:lowercase-motif" if lower else "lemma:revcomp",
+                          f"cfg={case['cfg']} s={s!r}: verdict {whole}, reverse complement {rc!r} differs"))
         if len(fails) > 5:
             break
     return fails
